@@ -242,8 +242,14 @@ def run(fx, R, tier):
                         st = field_state.setdefault(key, {'pairs': 0, 'mutexes': None, 'bad': {}})
                         st['pairs'] += 1
                         shared = a.mutexes() & b.mutexes()
-                        if shared:
+                        both_readers = {m_ for m_ in shared if m_ in a.shared_mutexes() and m_ in b.shared_mutexes()}
+                        if shared - both_readers:
                             st['mutexes'] = shared if st['mutexes'] is None else (st['mutexes'] | shared)
+                            continue
+                        if both_readers:
+                            # the only common mutex is held in shared mode on both sides: shared holders are not excluded from each other
+                            st['bad'].setdefault(na, []).append((a, nb, b))
+                            st.setdefault('shared_mode', set()).update(both_readers)
                             continue
                         for (x, nx, y, ny) in ((a, na, b, nb), (b, nb, a, na)):
                             if not x.mutexes() or not (x.mutexes() & y.mutexes()):
@@ -256,6 +262,13 @@ def run(fx, R, tier):
                     st['pairs'], sorted(disp(m) for m in (st['mutexes'] or []))), engine='E-LOCK')
             for entry, lst in sorted(st['bad'].items()):
                 x, ny, y = lst[0]
+                if st.get('shared_mode') and (x.shared_mutexes() & y.shared_mutexes()):
+                    R.violated('L1', '%s::%s:%s' % (cname, entry, key),
+                               'data race: %s of %s in %s and %s of %s in concurrent entry %s both hold %s only in SHARED mode (std::shared_lock): shared holders of a std::shared_mutex run at the same time, '
+                               'so the write is not excluded from the other access and a torn or mixed value can be observed' % (
+                                   'write' if x.kind == 'W' else 'read', disp(x.path), entry, 'write' if y.kind == 'W' else 'read', disp(y.path), ny,
+                                   sorted(disp(m_) for m_ in (x.shared_mutexes() & y.shared_mutexes()))), x.loc, 'E-LOCK')
+                    continue
                 R.violated('L1', '%s::%s:%s' % (cname, entry, key),
                            'data race: %s of %s in %s (via %s) holds %s, while concurrent entry %s does a %s of %s holding %s' % (
                                'write' if x.kind == 'W' else 'read', disp(x.path), entry, short_fn(x.fn),
